@@ -196,11 +196,12 @@ def work(ctx, task):
             os.mkdir(cache)
             attempt('cache-is-directory', api_call, True)
             # other build name / unknown build name
-            sb.restore(h)
-            if task['api'] == 'build':
-                attempt('build-name:other', lambda: FB.build(cache, 'other', root), True)
-            else:
-                attempt('build-name:other', lambda: FB.clean(cache, 'other'), True)
+            for wrong in ('other', '', 'N', 'n ', ' n', 'nn'):
+                sb.restore(h)
+                if task['api'] == 'build':
+                    attempt('build-name:%r' % wrong, lambda: FB.build(cache, wrong, root), True)
+                else:
+                    attempt('build-name:%r' % wrong, lambda: FB.clean(cache, wrong), True)
     else:
         class O:
             pass
